@@ -60,7 +60,7 @@ theorem board_read_apu (b : Board) (a : Nat) : (b.read a).2.apu = b.apu := by
 theorem board_write_apu_ok (b : Board) (a v : Nat) (h : ApuOk b.apu) : ApuOk (b.write a v).apu := by
   unfold Board.write Board.write?
   cases apuAddr? (wH a) a with
-  | some ad => exact write_ok _ _ _ h
+  | some ad => exact Tetro.ApuOk.write_ok _ _ _ h
   | none => simp only []; cases writeH (wH a) b.m a v <;> exact h
 
 theorem board_corrupt_apu (b : Board) : b.corrupt.apu = b.apu := by
@@ -111,10 +111,10 @@ private theorem dmaStep_apu (b : Board) : b.dmaStep.apu = b.apu := by
 /-- the four steps after the CPU's keep the APU invariant (only `audio.EndMachineCycle` touches the APU) -/
 theorem whole_end_cycle_apu (b : Board) (h : ApuOk b.apu) : ApuOk b.endCycle.apu := by
   unfold Board.endCycle
-  refine guard_apu _ (fun b hb => hb) _ ?_
-  refine guard_apu _ (fun b hb => by rw [whole_step_apu]; exact Tetro.ApuOk.cycle_ok _ hb) _ ?_
-  refine guard_apu _ (fun b hb => by rw [dmaStep_apu]; exact hb) _ ?_
-  exact guard_apu _ (fun b hb => by rw [ppuStep_apu]; exact hb) _ h
+  refine guard_apu Board.timerStep (fun b hb => hb) _ ?_
+  refine guard_apu Board.apuStep (fun b hb => by rw [whole_step_apu]; exact Tetro.ApuOk.cycle_ok _ hb) _ ?_
+  refine guard_apu Board.dmaStep (fun b hb => by rw [dmaStep_apu]; exact hb) _ ?_
+  exact guard_apu Board.ppuStep (fun b hb => by rw [ppuStep_apu]; exact hb) _ h
 
 /-! ### C. the first machine cycle after power-on -/
 
@@ -171,7 +171,7 @@ private theorem first_read_nat (b : Board) (h : FirstOk b) (a : Nat)
     cases hd <;> simp only [inRange, Bool.or_eq_true, Bool.and_eq_true, decide_eq_true_eq, beq_iff_eq,
       Bool.true_and, Bool.false_eq_true] at hr
     case mbc =>
-      have := read_ok h.cart a
+      have := Tetro.CartWF.read_ok h.cart a
       simp only [Cart.busRead, Option.isSome_iff_exists] at this
       obtain ⟨v, hv⟩ := this
       have e : readVal .mbc b.m a = some v := hv
@@ -196,7 +196,7 @@ private theorem first_write_nat (b : Board) (h : FirstOk b) (a v : Nat)
     have e : soundAddr 0xff13 = true := by decide
     rw [e]
     simp only [if_true]
-    exact ⟨h.alive, h.cart, h.ppu, h.dma, h.quiet, write_ok _ _ _ h.apu⟩
+    exact ⟨h.alive, h.cart, h.ppu, h.dma, h.quiet, Tetro.ApuOk.write_ok b.apu 0xff13 v h.apu⟩
   · have ha2 : a < 0x8000 ∨ (0xff80 ≤ a ∧ a < 65536) := by omega
     rw [not_sound ha2]
     simp only [Bool.false_eq_true, if_false]
@@ -207,7 +207,7 @@ private theorem first_write_nat (b : Board) (h : FirstOk b) (a v : Nat)
     cases hd <;> simp only [inRange, Bool.or_eq_true, Bool.and_eq_true, decide_eq_true_eq, beq_iff_eq,
       Bool.true_and, Bool.false_eq_true, Bool.not_false] at hr
     case mbc =>
-      obtain ⟨c', e, w⟩ := write_ok h.cart a v
+      obtain ⟨c', e, w⟩ := Tetro.CartWF.write_ok h.cart a v
       have e' : writeH .mbc b.m a v = some { b.m with cart := c' } := by simp only [writeH, e, Option.map_some]
       rw [e']
       exact ⟨h.alive, w, h.ppu, h.dma, h.quiet, h.apu⟩
@@ -392,14 +392,21 @@ theorem whole_run_ok (n : Nat) (w : Whole) (h : WholeOk w) : WholeOk (Whole.run 
   | zero => exact h
   | succ n ih => exact ih w.cycle (whole_cycle_ok w h)
 
-private theorem powerOn_first (c : Cart.Mbc) (wr au : Bool) (hc : WellFormed c) : FirstOk (powerOn c wr au).b := by
+private theorem powerOn_first (c : Cart.Mbc) (wr au : Bool) (hc : WellFormed c) : FirstOk (Whole.powerOn c wr au).b := by
   refine ⟨rfl, hc, rfl, ?_, ⟨rfl, rfl, rfl⟩, Tetro.ApuOk.new_ok au au⟩
   intro hrun
-  exact absurd hrun (by decide)
+  have e : (Whole.powerOn c wr au).b.m.oam.dmaRunning = false := rfl
+  rw [e] at hrun
+  cases hrun
+
+private theorem powerOn_pending (c : Cart.Mbc) (wr au : Bool) : Cpu.pendingBits (Whole.powerOn c wr au).b = 0 := by
+  have e : Cpu.pendingBits (Whole.powerOn c wr au).b = byteOf Intr.init.ie &&& byteOf Intr.init.ifl &&& 0x1f := rfl
+  rw [e]
+  decide
 
 /-- every machine `gameboy.New` builds satisfies the invariant -/
-theorem construct_ok (img : Cart.Image) (wr au : Bool) (w : Whole) (h : construct img wr au = some w) : WholeOk w := by
-  unfold construct at h
+theorem construct_ok (img : Cart.Image) (wr au : Bool) (w : Whole) (h : Whole.construct img wr au = some w) : WholeOk w := by
+  unfold Whole.construct at h
   rw [Option.map_eq_some_iff] at h
   obtain ⟨c, hc, rfl⟩ := h
   have hwf : WellFormed c := by
@@ -407,14 +414,14 @@ theorem construct_ok (img : Cart.Image) (wr au : Bool) (w : Whole) (h : construc
     · rw [e] at hc; cases hc
     · rw [e] at hc; cases hc; exact hw
   have hf := powerOn_first c wr au hwf
-  exact ⟨Or.inr ⟨hf, Or.inl ⟨rfl, rfl⟩⟩, init_ok, hf.apu⟩
+  exact ⟨Or.inr ⟨hf, Or.inl ⟨rfl, powerOn_pending c wr au⟩⟩, init_ok, hf.apu⟩
 
 /-- **C11 for the whole machine: it never panics.**  For EVERY ROM image the loader accepts, serial writer and
     speakers configured or not, after EVERY number of machine cycles none of the panic flags of the model – board
     (cartridge, VRAM/WRAM/HRAM, OAM + DMA + OAM bug, PPU timing and pixels), APU (`waveduty` and wave-RAM
     indices), CPU (sub-instruction index) – is set: the only way the machine stops is `regs.exited`, the
     emulator's deliberate `os.Exit` on an undefined opcode. -/
-theorem c11_whole_never_panics (img : Cart.Image) (wr au : Bool) (w : Whole) (h : construct img wr au = some w)
+theorem c11_whole_never_panics (img : Cart.Image) (wr au : Bool) (w : Whole) (h : Whole.construct img wr au = some w)
     (n : Nat) : (Whole.run n w).b.dead = false ∧ (Whole.run n w).cpu.crashed = false :=
   (whole_run_ok n w (construct_ok img wr au w h)).no_panic
 
